@@ -28,7 +28,7 @@ ActionSet ==
   \cup {[act |-> a, t |-> x[1], d |-> x[2], g |-> x[3], o |-> x[4], p |-> x[5]] :
             a \in {"CloseBid", "WithdrawLease", "CreateLease", "CloseLease"}, x \in Bids}
   \cup {[act |-> a, p |-> p, attrs |-> at] : a \in {"CreateProvider", "UpdateProvider"}, p \in Providers, at \in AttrChoices}
-  \cup {[act |-> "SignAttributes", a |-> a, p |-> p, attrs |-> at] : a \in Auditors, p \in Providers, at \in AttrChoices \ {<<>>}}
+  \cup {[act |-> "SignAttributes", a |-> a, p |-> p, attrs |-> at] : a \in Auditors, p \in Providers, at \in AttrChoices}
   \cup {[act |-> "DeleteAttributes", a |-> a, p |-> p, keys |-> ks] : a \in Auditors, p \in Providers, ks \in KeyChoices}
   \cup {[act |-> "NextBlock", gap |-> g] : g \in Gaps}
   \cup {[act |-> "SendToEscrow", t |-> t, amount |-> 1] : t \in Tenants}
@@ -75,6 +75,7 @@ NoReq(price) == [price |-> price, req |-> <<>>, allOf |-> {}, anyOf |-> {}]
 Attr(k, v)   == (k :> v)
 \* configuration families (referenced from the generated cfg files)
 GroupChoicesS == {<<NoReq(2)>>}                                  \* one group
+GroupChoicesS2 == {<<NoReq(1), NoReq(2)>>}                        \* two groups, small exhaustive family
 GroupChoicesA == {<<NoReq(2)>>, <<NoReq(1), NoReq(2)>>, <<NoReq(3), NoReq(2)>>}   \* two groups: concurrent payments
 NoAttrs       == {<<>>}
 NoKeys        == {{}}
